@@ -562,7 +562,7 @@ func runC12(w *c12World) ([]string, error) {
 // TestC12InitFailure: a node whose initialization fails leaves no listener or goroutine behind.
 func TestC12InitFailure(t *testing.T) {
 	rec := evid.New(t, "C12", "endpoint lists whose j-th element cannot be initialized (TCP/UDP port already bound, malformed address, serial device that does not open) after 0..3 good endpoints: Initialize must fail, no library goroutine may remain, every port of the earlier endpoints must be bindable again, earlier custom transports closed at most once; non-trivial = at least one good endpoint before the failing one; distinct by hash of the endpoint list")
-	rec.Require("fail-after-good", "busy-tcp", "busy-udp", "bad-address", "serial-missing", "odd-broadcast-port")
+	rec.Require("fail-after-good", "busy-tcp", "busy-udp", "bad-address", "serial-missing", "odd-broadcast-port", "odd-settings")
 	evid.Check(t, rec, evid.N(300, 1000), func(t *rapid.T) {
 		drawNodeInit(t)
 		ngood := rapid.IntRange(0, 3).Draw(t, "ngood")
@@ -592,7 +592,7 @@ func TestC12InitFailure(t *testing.T) {
 				endpoints = append(endpoints, gomavlib.EndpointUDPClient{Address: sim.Addr(sim.FreePort())})
 			}
 		}
-		bad := rapid.SampledFrom([]string{"busy-tcp", "busy-udp", "bad-address", "bad-address-client", "serial-missing", "bad-broadcast", "odd-broadcast-port"}).Draw(t, "bad")
+		bad := rapid.SampledFrom([]string{"busy-tcp", "busy-udp", "bad-address", "bad-address-client", "serial-missing", "bad-broadcast", "odd-broadcast-port", "odd-settings"}).Draw(t, "bad")
 		desc = append(desc, "FAIL:"+bad)
 		var release func()
 		oddPort := 0
@@ -629,11 +629,28 @@ func TestC12InitFailure(t *testing.T) {
 			endpoints = append(endpoints, gomavlib.EndpointUDPBroadcast{BroadcastAddress: "127.255.255.255:" + bp, LocalAddress: sim.Addr(oddPort)})
 		}
 		n := &gomavlib.Node{Endpoints: endpoints, Dialect: common.Dialect, OutVersion: gomavlib.V2, OutSystemID: 7}
+		oddSettings := bad == "odd-settings"
+		if oddSettings {
+			// every endpoint is fine, a setting of one of the node's own modules is questionable: whether that is
+			// accepted or refused, a refusal must not leave the endpoints (created before the modules) behind
+			switch rapid.IntRange(0, 4).Draw(t, "odd_setting") {
+			case 0:
+				n.HeartbeatSystemType = rapid.SampledFrom([]int{256, 300, -1, 1 << 20}).Draw(t, "hb_type")
+			case 1:
+				n.HeartbeatAutopilotType = rapid.SampledFrom([]int{256, -1, 70000}).Draw(t, "hb_autopilot")
+			case 2:
+				n.HeartbeatPeriod = time.Duration(rapid.SampledFrom([]int{1, 7}).Draw(t, "hb_period_ns")) // positive: a negative period is outside what the node documents
+			case 3:
+				n.StreamRequestEnable, n.StreamRequestFrequency = true, rapid.SampledFrom([]int{-5, 0, 1 << 20}).Draw(t, "sr_freq")
+			case 4:
+				n.IdleTimeout, n.ReadTimeout, n.WriteTimeout = 1, 1, 1
+			}
+		}
 		err := initNode(&n)
 		if release != nil {
 			release()
 		}
-		if err == nil && oddPort != 0 {
+		if err == nil && (oddPort != 0 || oddSettings) {
 			// accepted: then Close has to release everything
 			if _, cerr := closeNode(n, bound); cerr != nil {
 				t.Fatalf("%v: %v", desc, cerr)
